@@ -221,6 +221,10 @@ func runC16(x *Ctx) {
 			byID[r.ID] = r
 			all = append(all, r)
 			r.value = c16Value(r.Seed, r.Size, r.Codec)
+			if r.Size >= 1000000 && r.Seed%2 == 0 {
+				// a legal but very repetitive entity: megabytes that compress a thousandfold
+				r.value.S = strings.Repeat("\u00e9", 1<<20)
+			}
 		}
 	}
 	// noise: small well-formed round trips, each with an Accept and a Content-Type spelled as never before,
